@@ -216,6 +216,9 @@ StepProve == StepProveC(Cap(sc.base))
 Tampered(pf, f) ==
   CASE f = "tx" -> [pf EXCEPT !.tx = Fadd(@, 1)]
     [] f = "b" -> [pf EXCEPT !.b = Fadd(@, 1)]
+    [] f = "ident" -> [pf EXCEPT !.S1 = 0]                    \* (MC_BatchSys: a member that fails early - identity in a mandatory position)
+    [] f = "surplus" -> [pf EXCEPT !.L = Append(@, 77), !.R = Append(@, 78)]      \* (MC_BatchSys: fails the shape guard)
+    [] f = "bminus" -> [pf EXCEPT !.b = Fsub(@, 1)]          \* (MC_BatchSys: the partner of "b" in a correlated pair)
     [] f = "AI1" -> [pf EXCEPT !.AI1 = Fadd(@, 5)]
     [] f = "AI2" -> [pf EXCEPT !.AI2 = Fadd(@, 5)]
 StepTamper(s) == wire # NoProof /\ Adversary(Tampered(wire, s.f)) /\ UNCHANGED << rnd, consts, nch, altres >>
